@@ -7,6 +7,9 @@ real HTTP API in real time by scenarios that TLC generates from spec/AppSys.tla.
         pid "C08": AtLeastOnce (cluster scenarios), NoDuplicateWhenHealthy, ReadyEventually
         pid "C11": SilenceSurvivesRestart, NoRepeatAfterRestart
         pid "C01": AtLeastOnce in single-instance scenarios
+        pid "C17": configuration reloads of a running instance (POST /-/reload, App.Reload): RejectedReloadKeepsConfig,
+                   StatusShowsConfigInForce, AcceptedReloadTakesEffect
+        pid "C07": ReceiversAgree (receivers of GET /api/v2/alerts against the dispatcher's groups) around reloads
       steps: build harness/appsys; exhaustive TLC runs of MC_AppSys*.cfg (the defective deadline rule MUST
       violate AtLeastOnce, the left-out shutdown snapshot / log gossip / Settle MUST violate their
       property); Gen_AppSys scenarios (TLC -simulate); coverage-directed choice for `pid`; replay on the
@@ -447,6 +450,15 @@ ASSUMPTIONS = [
     "a repeat after a restart only within 3/4 repeat_interval and only if the first delivery reached the receiver >= 4.2 s before a clean stop "
     "(maintenance interval + 5.2 s before a kill); a lost silence only if acknowledged before a clean stop (maintenance interval + 5.2 s before a "
     "kill); anything else is an inconclusive case",
+    "whole-program stage, reloads (C17 / C07): two configurations that differ in the root receiver (hook-A / hook-B, webhook path /hook/A|B) and in "
+    "global.resolve_timeout; a reload = the file rewritten + POST /-/reload or App.Reload() (Options.Reload is fire-and-forget: its end cannot be "
+    "observed); kinds: good, refused by config.Load (undefined receiver / not YAML), refused at apply time (tracing tls ca_file or webhook tls ca_file "
+    "that does not exist - the two fallible steps of app/reloader.go after the routing tree is built; a template that does not parse fails before it and "
+    "is not generated); the configuration in force = the start's or the last reload answered 200; observations are made only while no reload request is "
+    "in flight; a delivery to the receiver of another configuration is a violation unless that one was in force until 4.2 s ago or is the one of the "
+    "reload in flight; a missing notification after a reload needs as control evidence an earlier delivery of the same instance to that receiver and a "
+    "direct request answered by the receiver during the extension; overlapped reloads use 1500 filler routes and ONE status request at 70 % of the "
+    "previous reload's duration (calibrated: TestOverlapCalibration)",
     "whole-program stage: group_interval 10 s / peer_timeout 12 s where the flush deadline rule matters (notify.MinTimeout is a 10 s constant), "
     "otherwise 3 s / 3 s; repeat_interval 35 s / 20 s; group_wait 1 s; gossip interval 20 ms; push-pull 10 s; settle timeout 5 s; data maintenance "
     "interval 4 s in restart scenarios; resolve_timeout 3 min (no alert resolves inside a scenario)",
